@@ -21,6 +21,10 @@ CONFIG = {
              "documents x 9 paths x 8 right documents, random option mixes beyond; a family of 12 (document, path) "
              "pairs in which a wildcard / search / keyword path matches two or three containers of EQUAL content "
              "(empty lists, empty hashes, identical hashes, identical sets) x 8 right documents x option mixes.  "
+             "a stream of per-path [rules] written, as a user writes them, for the merge point itself and for nodes "
+             "below it (7 (document, merge point) families x right documents x every mode of the rule's kind x option "
+             "mixes): the model receives the rule table the real MergerConfig resolved, the judge re-bases the rule paths "
+             "itself (merge point = right-hand root) and demands the policy the RULE defines.  "
              "non-trivial = the path is not the root; distinct = distinct case tuple."),
     "trusted_base": [
         "modelled, not verified: Merger.merge_with target loop, _insert_* (coq/Model/MergeAt.v, Merge.v)",
@@ -48,6 +52,30 @@ def init_worker():
     from yamlpath import Processor, YAMLPath
     from yamlpath.exceptions import YAMLPathException
     _ENV.update(Processor=Processor, YAMLPath=YAMLPath, YPE=YAMLPathException)
+
+
+def _split(case):
+    """(lhs, rhs, mergeat path, options, per-path rules | None); the rules (stream `rule_cases`) name LEFT-document
+    paths at or below the merge point, as a user writes them in the [rules] section"""
+    return (case[0], case[1], case[2], case[3], case[4] if len(case) > 4 else None)
+
+
+def _config(path, opts, rules):
+    C = c05._ENV
+    kw = {"rules": dict(rules)} if rules else {}
+    return C["MergerConfig"](C["log"], SimpleNamespace(mergeat=path, **opts), **kw)
+
+
+def rebase_rules(path, rules):
+    """The judge's own reading of 'a rule written for a node at or below the merge point applies to the part of
+    the right-hand document that lands there': the merge point itself is the right-hand root."""
+    out = {}
+    for rp, mode in (rules or {}).items():
+        if rp == path:
+            out["/"] = mode
+        elif rp.startswith(path.rstrip("/") + "/"):
+            out[rp[len(path.rstrip("/")):]] = mode
+    return out
 
 
 def locate(doc, nc):
@@ -97,7 +125,7 @@ def plan(case):
     """(kind, request) -- kind 'model' with a request line, or 'skip' with the
     canonical line both sides agree on by construction (the Processor itself
     refused the path: not this model's subject)"""
-    lhs_t, rhs_t, path, opts = case
+    lhs_t, rhs_t, path, opts, rules = _split(case)
     E, C = _ENV, c05._ENV
     lhs = c05.load(lhs_t)
     rhs = c05.load(rhs_t)
@@ -134,6 +162,12 @@ def plan(case):
     r_s = enc.node(rhs)
     cli = " ".join(c05.opt_sexp(opts.get(k)) for k in ("hashes", "arrays", "aoh", "sets", "anchors"))
     c_s = "(cfg false () () (%s) (none none none none none))" % cli
+    if rules:
+        # the rule table as the real MergerConfig resolves it on THIS right-hand document (C05's input convention);
+        # whether the resolution is the right one is the judge's business (rebase_rules)
+        cfg = _config(path, opts, rules)
+        cfg.prepare(rhs)
+        c_s = "(cfg true %s () (%s) (none none none none none))" % (c05.rule_table(enc, cfg.rules), cli)
     lt = oracles.lit_table(c05.scalars_of(lhs, []) + c05.scalars_of(rhs, []))
     return "model", "(mergeat %s %s %s (%s) %s %s)" % (c_s, lt, "true" if is_root else "false",
                                                      " ".join(loc_sexp(l) for l in locs), d_s, r_s)
@@ -148,13 +182,13 @@ def requests(case):
 
 
 def observe(case):
-    lhs_t, rhs_t, path, opts = case
+    lhs_t, rhs_t, path, opts, rules = _split(case)
     C = c05._ENV
     kind, _ = plan(case)
     try:
         lhs = c05.load(lhs_t)
         rhs = c05.load(rhs_t)
-        cfg = C["MergerConfig"](C["log"], SimpleNamespace(mergeat=path, **opts))
+        cfg = _config(path, opts, rules)
         m = C["Merger"](C["log"], lhs, cfg)
         m.merge_with(rhs)
         line = "(ok %s)" % c05.out_doc(m.data)
@@ -171,10 +205,10 @@ _LAST = {}
 
 def real_line(case):
     """the implementation's observation also for the cases the model skips"""
-    lhs_t, rhs_t, path, opts = case
+    lhs_t, rhs_t, path, opts, rules = _split(case)
     C = c05._ENV
     try:
-        cfg = C["MergerConfig"](C["log"], SimpleNamespace(mergeat=path, **opts))
+        cfg = _config(path, opts, rules)
         m = C["Merger"](C["log"], c05.load(lhs_t), cfg)
         m.merge_with(c05.load(rhs_t))
         return "(ok %s)" % c05.out_doc(m.data)
@@ -183,7 +217,8 @@ def real_line(case):
 
 
 def c05_key(case):
-    return (case[0], case[1], case[2], tuple(sorted(case[3].items())))
+    return (case[0], case[1], case[2], tuple(sorted(case[3].items()))) + \
+        ((tuple(sorted(case[4].items())),) if len(case) > 4 and case[4] else ())
 
 
 key = c05_key
@@ -213,7 +248,7 @@ def p_replace(d, loc, new):
 
 
 def judge(case, obs):
-    lhs_t, rhs_t, path, opts = case
+    lhs_t, rhs_t, path, opts, rules = _split(case)
     E, C = _ENV, c05._ENV
     line = real_line(case)
     if line.startswith("(raise (crash"):
@@ -256,7 +291,7 @@ def judge(case, obs):
         return None if line.startswith("(raise") else \
             "a path that cannot be created was not reported: the right-hand document was merged into its own children"
     created = c05.plain(lhs)
-    pol = c05.Policy((lhs_t, rhs_t, opts, None, None, None))
+    pol = c05.Policy((lhs_t, rhs_t, opts, rebase_rules(path, rules) or None, None, None))
     r = c05.plain(rhs)
     exp = created
     try:
@@ -324,9 +359,44 @@ EQUAL_TARGETS = [
 ]
 
 
+# per-path [rules] written for the merge point itself and for nodes below it (seed C11_3: a rule naming exactly the
+# merge point was no longer re-based to the right-hand root and silently dropped)
+RULE_TARGETS = [
+    # (left document, mergeat, right documents, rule path -> candidate modes)
+    ("{a: [1, 2], k: 5}", "/a", ["[2, 3]", "[1]", "[3, 3]"], {"/a": ["unique", "left", "right", "all"]}),
+    ("{a: {b: 1, c: {d: 1}}, k: {b: 2}}", "/a", ["{b: 9, e: 3}", "{c: {d: 2, f: 1}}", "{e: 1}"],
+     {"/a": ["left", "right", "deep"], "/a/c": ["left", "right", "deep"], "/a/b": ["left", "right"]}),
+    ("{s: {l: [a, b], m: {x: 1}}, o: u}", "/s/l", ["[b, c]", "[a]"], {"/s/l": ["unique", "left", "right", "all"]}),
+    ("{s: {l: [a, b], m: {x: 1}}, o: u}", "/s", ["{l: [b, c]}", "{m: {x: 2, y: 3}, l: [z]}"],
+     {"/s/l": ["unique", "left", "right", "all"], "/s/m": ["left", "right", "deep"], "/s": ["left", "right", "deep"]}),
+    ("{a: !!set {x, y}, k: 1}", "/a", ["!!set {y, z}"], {"/a": ["left", "right", "unique"]}),
+    ("{l: [{id: 1, v: 1}], z: 0}", "/l", ["[{id: 1, v: 2}, {id: 2}]"], {"/l": ["all", "left", "right", "unique", "deep"]}),
+    ("{a: {b: 1}}", "/x", ["{c: 2}", "[1]"], {"/x": ["left", "right"]}),               # the merge point is created
+]
+
+
+def rule_cases(rng, tier):
+    out = []
+    for l, p, rs, cand in RULE_TARGETS:
+        for r in rs:
+            for rp, modes in cand.items():
+                for m in modes:
+                    out.append((l, r, p, {}, {rp: m}))
+                    o = dict(rng.choice(c05.ALL_COMBOS))
+                    out.append((l, r, p, o, {rp: m}))
+            for _ in range(6 if tier == "quick" else 40):
+                rules = {rp: rng.choice(modes) for rp, modes in cand.items() if rng.random() < 0.6}
+                if rules:
+                    out.append((l, r, p, dict(rng.choice(c05.ALL_COMBOS)), rules))
+    return out
+
+
 def chunks(tier, seed):
     rng = random.Random(seed)
     buf = []
+    rc = rule_cases(random.Random(seed * 31 + 7), tier)
+    for j in range(0, len(rc), 300):
+        yield rc[j:j + 300]
     for l, p in EQUAL_TARGETS:
         for r in RHS:
             mixes = [dict()] + rng.sample(c05.ALL_COMBOS, 6 if tier == "quick" else 40)
@@ -390,7 +460,8 @@ def classify(case, obs):
     line = real_line(case) if kind != "model" else obs[0]
     res = "ok" if line.startswith("(ok") else "mergeexc" if line == "(raise mergeexc)" else \
         "ype" if line == "(raise ype)" else "other"
-    return "%s:%s:%s" % (kind, "root" if case[2] == "/" else "path", res)
+    return "%s:%s:%s%s" % (kind, "root" if case[2] == "/" else "path", res,
+                           ":rules" if len(case) > 4 and case[4] else "")
 
 
 def nontrivial(case, obs):
@@ -398,8 +469,13 @@ def nontrivial(case, obs):
 
 
 def describe(case):
-    return {"lhs": case[0], "rhs": case[1], "mergeat": case[2], "options": case[3]}
+    d = {"lhs": case[0], "rhs": case[1], "mergeat": case[2], "options": case[3]}
+    if len(case) > 4 and case[4]:
+        d["rules"] = case[4]
+    return d
 
 
 def undescribe(d):
+    if d.get("rules"):
+        return (d["lhs"], d["rhs"], d["mergeat"], d["options"], d["rules"])
     return (d["lhs"], d["rhs"], d["mergeat"], d["options"])
